@@ -14,6 +14,7 @@ package main
 import (
 	"bytes"
 	"crypto/ed25519"
+	crand "crypto/rand"
 	"encoding/hex"
 	"fmt"
 	"math/big"
@@ -39,6 +40,16 @@ var run *vf.Run
 type symbol struct {
 	Kind string `json:"kind"` // start | verify | exchange | step | method | admin
 	Var  string `json:"variant"`
+}
+
+// A variant that ends in "!entropy": while the accessory handles this message its entropy source fails (crypto/rand.Reader,
+// the process-wide source every Go package draws from, returns an error): in-process harness only.
+const entropyFault = "!entropy"
+
+type failingEntropy struct{}
+
+func (failingEntropy) Read(p []byte) (int, error) {
+	return 0, fmt.Errorf("entropy source failed (injected)")
 }
 
 var alphabet = []symbol{
@@ -388,8 +399,20 @@ func runHistory(hno int, tr transport, w *world, seq []symbol, nconn int, harnes
 			continue
 		}
 		w.storedNow = prev
-		b := build(w, p, s)
-		status, body, dropped := tr.send(ci, b.msg)
+		fault := strings.HasSuffix(s.Var, entropyFault)
+		b := build(w, p, symbol{s.Kind, strings.TrimSuffix(s.Var, entropyFault)})
+		var status int
+		var body []byte
+		var dropped bool
+		if fault && harness == "inproc" {
+			good := crand.Reader
+			crand.Reader = failingEntropy{}
+			status, body, dropped = tr.send(ci, b.msg)
+			crand.Reader = good
+			run.Count("messages_handled_while_the_entropy_source_fails", 1)
+		} else {
+			status, body, dropped = tr.send(ci, b.msg)
+		}
 		run.Count(harness+"_messages", 1)
 		state := "fresh"
 		if p.started {
@@ -732,6 +755,26 @@ func main() {
 		inprocDo(append([]symbol{{"start", ""}, {"verify", "right"}, {"start", ""}}, tail...), 1)
 		inprocDo(append([]symbol{{"start", ""}, {"exchange", "zero-key"}}, tail...), 1)
 	}
+	// a fault at one step: the entropy source fails while one message is handled (a session that cannot be renewed, a
+	// nonce that cannot be drawn); what a peer without the code sends next must still store nothing
+	for _, v := range alphabet {
+		if v.Kind != "verify" {
+			continue
+		}
+		for _, e := range alphabet {
+			if e.Kind != "exchange" {
+				continue
+			}
+			fv := symbol{v.Kind, v.Var + entropyFault}
+			fs := symbol{"start", entropyFault}
+			inprocDo([]symbol{{"start", ""}, fv, e}, 1)
+			if r.Thorough() || e.Var == "zero-key" || e.Var == "hkdf-of-empty-secret" || e.Var == "genuine" {
+				inprocDo([]symbol{fs, v, e}, 1)
+				inprocDo([]symbol{{"start", ""}, fv, {"start", ""}, v, e}, 1)
+				inprocDo([]symbol{{"start", ""}, v, fs, e}, 1)
+			}
+		}
+	}
 	n := r.Pick(300, 5000)
 	for i := 0; i < n; i++ {
 		k := 3 + rnd.Intn(6)
@@ -800,6 +843,7 @@ func main() {
 	r.Floor("inproc_messages", int(r.Counter("inproc_messages")), 1500)
 	r.Floor("fullstack_messages", int(r.Counter("fullstack_messages")), 400)
 	r.Floor("legitimate_stores", int(r.Counter("legitimate_stores")), 10)
+	r.Floor("messages_handled_while_the_entropy_source_fails", int(r.Counter("messages_handled_while_the_entropy_source_fails")), 300)
 	r.Floor("verify_with_public_guess", int(r.Counter("verify_with_public_guess")), 150)
 	r.Floor("forged_exchanges_with_a_new_identity_after_a_store", int(r.Counter("forged_exchanges_with_a_new_identity_after_a_store")), 10)
 	r.Finish()
